@@ -66,7 +66,9 @@ impl BumpAllocator {
 
     /// Allocate a slice of objects of type T
     pub fn alloc_slice<T>(&self, count: usize) -> Result<NonNull<[T]>> {
-        let size = std::mem::size_of::<T>() * count;
+        let size = std::mem::size_of::<T>()
+            .checked_mul(count)
+            .ok_or_else(|| ZiporaError::out_of_memory(usize::MAX))?;
         let align = std::mem::align_of::<T>();
         let ptr = self.alloc_bytes(size, align)?;
 
@@ -98,12 +100,14 @@ impl BumpAllocator {
             // Calculate aligned offset. Align the ADDRESS, not the offset: the buffer
             // itself is only guaranteed to be 8-byte aligned.
             let base = self.buffer.as_ptr() as usize;
-            let aligned_offset = ((base + current + align - 1) & !(align - 1)) - base;
-            let new_offset = aligned_offset + size;
-
-            if new_offset > self.capacity {
-                return Err(ZiporaError::out_of_memory(size));
-            }
+            let aligned_offset = match (base + current).checked_add(align - 1) {
+                Some(a) => (a & !(align - 1)) - base,
+                None => return Err(ZiporaError::out_of_memory(size)),
+            };
+            let new_offset = match aligned_offset.checked_add(size) {
+                Some(n) if n <= self.capacity => n,
+                _ => return Err(ZiporaError::out_of_memory(size)),
+            };
 
             // Try to atomically update the current offset
             match self.current.compare_exchange_weak(
@@ -163,10 +167,17 @@ impl BumpAllocator {
     /// Note: This is a best-effort check in a concurrent context. Another thread
     /// may allocate between this check and the actual allocation.
     pub fn can_allocate(&self, size: usize, align: usize) -> bool {
+        if !align.is_power_of_two() {
+            return false;
+        }
         let current = self.current.load(Ordering::Relaxed);
         let base = self.buffer.as_ptr() as usize;
-        let aligned_offset = ((base + current + align - 1) & !(align - 1)) - base;
-        aligned_offset + size <= self.capacity
+        match (base + current).checked_add(align - 1) {
+            Some(a) => ((a & !(align - 1)) - base)
+                .checked_add(size)
+                .map_or(false, |end| end <= self.capacity),
+            None => false,
+        }
     }
 }
 
